@@ -1,17 +1,20 @@
-From Verif Require Import Common C12_Model C12_Spec.
+From Verif Require Import Common Json JsonText C12_Model C12_Spec.
 Open Scope N_scope.
 
 Definition case := (input * observation)%type.
 
 (* the model's outcome in the observation's vocabulary; the OS facts are taken from the
-   implementation's observation (they are not modelled) *)
+   implementation's observation (they are not modelled), and so is the presence of the probe
+   metric where the model leaves it to prometheus ([o_metric_unknown]) *)
 Definition model_obs (c : case) : observation :=
   let (i, o) := c in
   let m := run i in
   mkOb (o_started m) (ob_cwd_is_hook_dir o) (ob_env_ok o) (ob_context_matches o) (ob_files_empty o)
        (ob_paths_distinct o) (ob_tmp_during o)
        (if o_success m then 0 else 1)
-       (o_remaining m) (o_metric_applied m) (o_patch_applied m) false.
+       (o_remaining m)
+       (if o_metric_unknown m then ob_metric_applied o else o_metric_applied m)
+       (o_patch_applied m) false.
 
 (* a not-started execution is retried without end in the harness (zero back-off); leaked
    files are compared as zero / non-zero only *)
@@ -29,3 +32,5 @@ Definition agrees (c : case) : bool :=
 
 Definition mismatches (cs : list case) : list N := indices_where (fun c => negb (agrees c)) cs.
 Definition spec_violations (cs : list case) : list N := indices_where (fun c => negb (P (fst c) (snd c))) cs.
+(* cases of the finding "a conversion response followed by other data is accepted" *)
+Definition trigger_C12conv (cs : list case) : list N := indices_where (fun c => T_conv (fst c)) cs.
